@@ -4,7 +4,7 @@
     by the extracted OCaml runner, so the two evaluation routes check each other.
     Nothing in this file is used by a theorem. *)
 From Coq Require Import String.
-From OtpV Require Import Prelude Sha Tables Errors Decoder Derive Otp Ocra Rfc4226 Rfc6287 Rfc4648 Utils Random Suite SuiteName.
+From OtpV Require Import Prelude Sha Tables Errors Decoder Derive Otp Ocra Rfc4226 Rfc6287 Rfc4648 Utils Random Suite SuiteName Url.
 Open Scope string_scope.
 Open Scope N_scope.
 Open Scope list_scope.
@@ -121,6 +121,66 @@ Fixpoint insert_sorted (x : bytes) (l : list bytes) : list bytes :=
   end.
 Definition sort_names (l : list bytes) : list bytes := fold_right insert_sorted [] l.
 
+(** ---- provisioning URLs (C16) ---- *)
+Definition url_text (u : url) : bytes :=
+  s2b "x" ++ hex_of (u_scheme u) ++ s2b ",x" ++ hex_of (u_opaque u) ++ [44] ++ b01 (u_user u) ++ s2b ",x" ++ hex_of (u_host u)
+  ++ s2b ",x" ++ hex_of (u_path u) ++ s2b ",x" ++ hex_of (u_rawpath u) ++ [44] ++ b01 (u_forcequery u)
+  ++ s2b ",x" ++ hex_of (u_rawquery u) ++ s2b ",x" ++ hex_of (u_fragment u).
+Definition parse_url_fields (s : bytes) : option url :=
+  match s with
+  | [45] => None
+  | _ => let f := split_on 44 s in
+         Some (mkUrl (unhx (fld f 0)) (unhx (fld f 1)) (parse_bool (fld f 2)) (unhx (fld f 3)) (unhx (fld f 4)) (unhx (fld f 5))
+                     (parse_bool (fld f 6)) (unhx (fld f 7)) (unhx (fld f 8)))
+  end.
+Definition urlparam_text (p : urlparam) : bytes :=
+  s2b "up:x" ++ hex_of (up_issuer p) ++ s2b ",x" ++ hex_of (up_account p) ++ [44] ++ dec_of_N (up_period p) ++ s2b ",x" ++ hex_of (up_secret p)
+  ++ [44] ++ dec_of_N (up_digits p) ++ [44] ++ dec_of_N (up_alg p).
+Definition parse_urlparam (f : list bytes) (i : nat) : urlparam :=
+  mkUrlParam (unhx (fld f i)) (unhx (fld f (i + 1))) (parse_N (fld f (i + 5))) (unhx (fld f (i + 2))) (parse_N (fld f (i + 3))) (parse_N (fld f (i + 4))).
+Definition gen_url (kind : bytes) (p : urlparam) : outcome url :=
+  if bytes_eqb kind (s2b "t") then generate_totp_url p else generate_hotp_url p.
+
+Definition run_fields5 (f : list bytes) : bytes * bool :=
+  let a i := fld f i in
+  let op := a 0%nat in
+  if bytes_eqb op (s2b "gurl") then
+    (match gen_url (a 1%nat) (parse_urlparam f 2) with
+     | Ok u => s2b "url:" ++ url_text u ++ s2b "|x" ++ hex_of (url_string u)
+     | Err e => r_err e | Panic => s2b "panic" end, true)
+  else if bytes_eqb op (s2b "uparse") then
+    match url_parse (unhx (a 1%nat)) with
+    | POk u => (s2b "url:" ++ url_text u, true)
+    | PErr => (s2b "err:*", true)
+    | POut => (s2b "out-of-model", false)
+    end
+  else if bytes_eqb op (s2b "ustr") then
+    match parse_url_fields (a 1%nat) with
+    | Some u => (s2b "ok:" ++ hex_of (url_string u), negb (u_user u))
+    | None => (s2b "panic", true)
+    end
+  else if bytes_eqb op (s2b "purl") then
+    (match parse_otpauth_url (parse_url_fields (a 1%nat)) with
+     | Ok p => urlparam_text p | Err e => r_err e | Panic => s2b "panic" end, true)
+  else if bytes_eqb op (s2b "rturl") then
+    match gen_url (a 1%nat) (parse_urlparam f 2) with
+    | Ok u =>
+      match url_parse (url_string u) with
+      | POk u2 => (match parse_otpauth_url (Some u2) with
+                   | Ok p => urlparam_text p ++ s2b "|x" ++ hex_of (u_scheme u2) ++ s2b ",x" ++ hex_of (u_host u2)
+                   | Err e => r_err e | Panic => s2b "panic" end, true)
+      | PErr => (s2b "bad:generated-url-does-not-parse", true)
+      | POut => (s2b "out-of-model", false)
+      end
+    | Err e => (r_err e, true)
+    | Panic => (s2b "panic", true)
+    end
+  else if bytes_eqb op (s2b "digstr") then (s2b "ok:n" ++ dec_of_N (digits_from_str (unhx (a 1%nat))), true)
+  else if bytes_eqb op (s2b "algstr") then (s2b "ok:n" ++ dec_of_N (algorithm_from_str (unhx (a 1%nat))), true)
+  else if bytes_eqb op (s2b "algname") then (s2b "ok:" ++ hex_of (alg_string (parse_N (a 1%nat))), true)
+  else if bytes_eqb op (s2b "digint") then (s2b "ok:n" ++ dec_of_N (parse_N (a 1%nat)), true)
+  else (s2b "unknown-op", true).
+
 Definition run_fields4 (f : list bytes) : bytes * bool :=
   let a i := fld f i in
   let op := a 0%nat in
@@ -130,7 +190,7 @@ Definition run_fields4 (f : list bytes) : bytes * bool :=
   else if bytes_eqb op (s2b "known") then (s2b "ok:n" ++ (if is_known_suite (unhx (a 1%nat)) then [49] else [48]), true)
   else if bytes_eqb op (s2b "fromraws") then (s2b "cfg:" ++ suite_text (suite_config_from_raws (unhx (a 1%nat))), true)
   else if bytes_eqb op (s2b "listsuites") then (s2b "ok:" ++ join 44 (sort_names list_suites), true)
-  else (s2b "unknown-op", true).
+  else run_fields5 f.
 
 (** [scan <case>]: harness self-check that the error text of the inner case discloses neither
     secret nor expected code; the model's answer is the constant "clean" (C13 theorems). *)
@@ -286,6 +346,15 @@ Definition spec_fields (f : list bytes) : option bytes :=
       Some (match spec_gocra (unhx (a 1%nat)) cfg (parse_input (a 4%nat)) with
             | Ok code => if bytes_eqb code (unhx (a 2%nat)) then s2b "v:true:-" else s2b "v:false:*"
             | _ => s2b "v:false:*" end)
+    else None
+  else if bytes_eqb op (s2b "rturl") then
+    let p := parse_urlparam f 2 in
+    let totp := bytes_eqb (a 1%nat) (s2b "t") in
+    if nonempty (up_issuer p) && nonempty (up_account p) && nonempty (up_secret p) && negb (contains 58 (up_issuer p))
+       && (up_alg p <? 3) && (up_period p <? two63) then
+      Some (urlparam_text (mkUrlParam (up_issuer p) (up_account p) (if totp then (if up_period p =? 0 then 30 else up_period p) else 30)
+                                      (up_secret p) (if up_digits p =? 0 then 6 else up_digits p) (up_alg p))
+            ++ s2b "|x" ++ hex_of (s2b "otpauth") ++ s2b ",x" ++ hex_of (if totp then s2b "totp" else s2b "hotp"))
     else None
   else if bytes_eqb op (s2b "nraw") || bytes_eqb op (s2b "praw") then
     let raw := unhx (a 1%nat) in
